@@ -568,6 +568,30 @@ def float_default_relres():
     raise Shape('FloatRange.relative_resolution not found')
 
 
+def finish_converts_constant_unguarded():
+    """Parameter.finish: the statement after `self.fixExport()` is exactly
+         if self.constant is not None:
+             constant = self.datatype(self.constant)
+             self.constant = self.datatype.export_value(constant)
+             self.readonly = True
+       (not inside a try: a constant that is no value of the datatype raises out of Module.__init__), and the loop over
+       'default', 'value' that follows converts inside `try ... except BadValueError: pass` (model: finish_constant, refit)"""
+    f = find_func(find_class(parse(PA), 'Parameter'), 'finish')
+    body = [n for n in f.body if not (isinstance(n, ast.Expr) and isinstance(n.value, ast.Constant))]
+    if len(body) < 3 or src(body[0]).strip() != 'self.fixExport()':
+        raise Shape('Parameter.finish does not start with self.fixExport()')
+    node = body[1]
+    if not (isinstance(node, ast.If) and src(node.test).strip() == 'self.constant is not None' and not node.orelse):
+        raise Shape('Parameter.finish: `if self.constant is not None:` expected after fixExport')
+    want = ['constant = self.datatype(self.constant)', 'self.constant = self.datatype.export_value(constant)',
+            'self.readonly = True']
+    got = [src(n).strip() for n in node.body]
+    loop = body[2]
+    ok_loop = (isinstance(loop, ast.For) and src(loop.iter).strip() in ("('default', 'value')", "'default', 'value'")
+               and any(isinstance(n, ast.Try) for n in ast.walk(loop)))
+    return 'bool', cbool(got == want and ok_loop)
+
+
 FACTS = [module_props, param_props, command_props, checked_value_props, properties_applied_before_value_checks,
          add_accessible_catches_exactly_key_and_badvalue, param_setproperty_wraps_badvalue,
          checks_only_without_errors_and_raise, unknown_names_reported, module_props_popped_and_badvalue_collected,
@@ -577,7 +601,7 @@ FACTS = [module_props, param_props, command_props, checked_value_props, properti
          all_modules_initialised,
          registers_only_created, exit_on_errors, merge_first_wins_and_tags, modname_regex, mod_wraps_bare_values,
          unlimited, float_default_relres, dt_length_props, string_isutf8_is_bool, length_datatypes_check_properties,
-         param_value_appended_after_overrides]
+         param_value_appended_after_overrides, finish_converts_constant_unguarded]
 
 FINGERPRINTS = {
     'Module.__init__': _init,
